@@ -56,6 +56,12 @@ public class Num {
     for (int i = 0; i < n; i++) { double e = d(t.elems[i]) - m; v += e * e; }
     return s(v / n);
   }
+  /* Python's round(x, n): the exact binary value rounded half-even to n decimals */
+  public static Value NRound(Value a, Value n) {
+    double x = d(a);
+    if (Double.isNaN(x) || Double.isInfinite(x)) return s(x);
+    return s(new java.math.BigDecimal(x).setScale(((IntValue) n).val, java.math.RoundingMode.HALF_EVEN).doubleValue());
+  }
   public static Value NIsNaN(Value a) { return Double.isNaN(d(a)) ? BoolValue.ValTrue : BoolValue.ValFalse; }
   /* -1 lt, 0 bit-identical, 1 gt, 2 ambiguous (within 1e-9 relative), 3 unordered (NaN) */
   public static Value NCmp(Value a, Value b) {
